@@ -637,12 +637,8 @@ func c08Wide(c *Ctx, p *Prog, ms map[string]*ssa.Function) {
 		// within the treatment of one cell no width store may run before the dirtying: paths are
 		// followed without crossing the header of a loop over the cells
 		avoid := map[*ssa.BasicBlock]bool{}
-		for h := range loopsOf(fn) {
-			for _, in := range h.Instrs {
-				if bo, isBO := in.(*ssa.BinOp); isBO && isRangeIndex(bo) {
-					avoid[h] = true
-				}
-			}
+		for _, h := range cellLoopHeaders(fn) {
+			avoid[h] = true
 		}
 		for _, st := range storesTo(fn, cellOwner, "width") {
 			seen := map[*ssa.BasicBlock]bool{}
@@ -857,12 +853,8 @@ func c08FillAll(c *Ctx, p *Prog, ms map[string]*ssa.Function) {
 		return
 	}
 	var hdr *ssa.BasicBlock
-	for h := range loopsOf(fn) {
-		for _, in := range h.Instrs {
-			if bo, ok := in.(*ssa.BinOp); ok && isRangeIndex(bo) {
-				hdr = h
-			}
-		}
+	for _, h := range cellLoopHeaders(fn) {
+		hdr = h
 	}
 	if hdr == nil {
 		c.Undecided("C08-R2", "Fill:loop", p.pos(fn.Pos()), "loop over the cells not found")
@@ -1195,4 +1187,49 @@ func dirtyComparesPairIn(dirty *ssa.Function, sfx string) bool {
 		}
 	})
 	return found
+}
+
+// cellLoopHeaders: the headers of the loops of fn that walk the cell array: a range loop (go/ssa's
+// rangeindex), or a counted loop whose counter — a phi of the header, or that plus a constant — indexes
+// the buffer's cells.  When several nest, the outermost comes last.
+func cellLoopHeaders(fn *ssa.Function) []*ssa.BasicBlock {
+	var out []*ssa.BasicBlock
+	loops := loopsOf(fn)
+	var hs []*ssa.BasicBlock
+	for h := range loops {
+		hs = append(hs, h)
+	}
+	sort.Slice(hs, func(i, j int) bool { return len(loops[hs[i]]) < len(loops[hs[j]]) })
+	for _, h := range hs {
+		body := loops[h]
+		isRange := false
+		for _, in := range h.Instrs {
+			if bo, ok := in.(*ssa.BinOp); ok && isRangeIndex(bo) {
+				isRange = true
+			}
+		}
+		indexed := false
+		for b := range body {
+			for _, in := range b.Instrs {
+				ia, ok := in.(*ssa.IndexAddr)
+				if !ok {
+					continue
+				}
+				if ref, _, isF := loadedField(ia.X); !isF || ref.Name != "cells" {
+					continue
+				}
+				idx := stripConv(ia.Index)
+				if add, isAdd := idx.(*ssa.BinOp); isAdd && add.Op == token.ADD {
+					idx = add.X
+				}
+				if phi, isPhi := idx.(*ssa.Phi); isPhi && phi.Block() == h {
+					indexed = true
+				}
+			}
+		}
+		if isRange || indexed {
+			out = append(out, h)
+		}
+	}
+	return out
 }
